@@ -12,6 +12,7 @@ import (
 	"time"
 
 	"github.com/Vedant9500/WTF/internal/database"
+	apperrors "github.com/Vedant9500/WTF/internal/errors"
 	"github.com/Vedant9500/WTF/internal/recovery"
 )
 
@@ -39,7 +40,7 @@ func init() {
 			"command: not a list\n", "just a scalar", "42", "null", "~", "- 1\n- 2\n", "- [nested, list]\n", "- command: [a, b]\n", "- command: {k: v}\n",
 			"- command: ls\n  keywords: notalist\n", "- command: ls\n  pipeline: maybe\n", "- command: ls\n  platform: linux\n", "- command: \"unterminated\n", "- command: ls\n description: bad indent\n",
 			"\t- tab indented", "{", "}", "[", "- &a [*a]\n", "- command: *undefined\n", "%YAML 9.9\n---\n- command: x\n", "--- \n...\n---\n- command: two docs\n",
-			"\x00\x01\x02\xff\xfe", "\xef\xbb\xbf- command: bom\n", "- command: \"\\x00nul\"\n  description: \"\\uFFFF\"\n", "- command: " + strings.Repeat("x", 100000) + "\n",
+			"- command: \"backup\\0old\"\n  description: \"file\\0name in the middle\"\n  keywords: [\"a\\0b\"]\n", "\x00\x01\x02\xff\xfe", "\xef\xbb\xbf- command: bom\n", "- command: \"\\x00nul\"\n  description: \"\\uFFFF\"\n", "- command: " + strings.Repeat("x", 100000) + "\n",
 			"- command: ls\n  description: " + strings.Repeat("word ", 5000) + "\n", strings.Repeat("- command: c\n  description: d\n", 3000),
 			"- command: ''\n  description: ''\n  keywords: ['', '']\n  tags: [~]\n", "- keywords: [only keywords]\n", "- tags: [only, tags]\n  platform: []\n",
 			"- command: \"multi\\nline\"\n  description: |\n    block\n    text\n", "- command: !!binary aGVsbG8=\n", "- command: !!float 1.5\n", "- command: 2024-01-01\n",
@@ -56,7 +57,7 @@ func init() {
 			}
 			contents = append(contents, b.String())
 		}
-		queries := []string{"", " ", "\t\n", "ls", "git commit", "a", "\x00", "a\x00b", "\xff\xfe", "caf\xc3", strings.Repeat("x", 1000), strings.Repeat("word ", 200), "...", "---", "$(rm -rf)", "how do i list files", "compress files without opening", "é ü 日本", "c1 c2 c3 c4 c5 c6 c7 c8 c9 c10 c11 c12", "generated", "k3", "-", "*", "\"quoted\""}
+		queries := []string{"", " ", "\t\n", "ls", "git commit", "a", "\x00", "a\x00b", "\xff\xfe", "caf\xc3", strings.Repeat("x", 1000), strings.Repeat("word ", 200), "...", "---", "$(rm -rf)", "how do i list files", "compress files without opening", "é ü 日本", "c1 c2 c3 c4 c5 c6 c7 c8 c9 c10 c11 c12", "generated", "backup", "bakup fle", "k3", "-", "*", "\"quoted\""}
 		optSets := []database.SearchOptions{
 			{}, {Limit: -5, UseNLP: true}, {Limit: math.MaxInt, UseNLP: true, UseFuzzy: true}, {Limit: math.MaxInt/2 + 1, UseNLP: true},
 			{Limit: 3, UseFuzzy: true, FuzzyThreshold: -1000}, {Limit: 2, PipelineOnly: true, PipelineBoost: -1, UseNLP: true},
@@ -91,6 +92,17 @@ func init() {
 				fail("missing file: got db=%v err=%v, want a not-found error", db != nil, err)
 			}
 		})
+		// ... whatever the file is called: the classification reads the error text, and the text of
+		// "file not found" contains the path
+		for _, name := range []string{"commands.yaml", "personal.yaml", "db.txt", "no-extension", "unmarshal.yml", "yaml: odd name.yml", "permission denied.yml", "a.YAML"} {
+			guard("LoadDatabase(missing "+name+")", func() {
+				_, err := database.LoadDatabase(filepath.Join(root, "missing-dir", name))
+				var ae *apperrors.AppError
+				if err == nil || !stderrors.Is(err, fs.ErrNotExist) || !stderrors.As(err, &ae) || !strings.HasPrefix(ae.Message, "database file not found") {
+					fail("missing file %q: reported as %q (%v), want the not-found error", name, messageOf(err), err)
+				}
+			})
+		}
 		guard("LoadDatabase(directory)", func() {
 			if db, err := database.LoadDatabase(root); err == nil || db != nil {
 				fail("a directory loaded as a database")
@@ -168,4 +180,12 @@ func trunc80(s string) string {
 		return s[:80] + "..."
 	}
 	return s
+}
+
+func messageOf(err error) string {
+	var ae *apperrors.AppError
+	if stderrors.As(err, &ae) {
+		return ae.Message
+	}
+	return "<not an application error>"
 }
